@@ -32,6 +32,8 @@ def decl_specs(tier):
             specs.append({'names': [c, 'i1'], 'wrapper': w, 'opts': {'generate_for_pack': False, 'generate_for_unpack': False}})
     for c in ('i2', 'dn', 'sn', 'r1', 'b35', 'p_at3', 'rs', 'o1', 'su'):
         specs.append({'names': [c, 'i3'], 'wrapper': 'a', 'opts': {'generate_for_pack': False, 'generate_for_unpack': False}})
+    for c in ('i1', 'i3', 'dn', 'm0', 'b35', 'sn', 'su', 'sr', 'o1', 'r1', 'rs', 'sdn'):
+        specs.append({'names': [c], 'wrapper': 'd'})
     return specs
 
 
